@@ -12,12 +12,35 @@ import (
 const maxInlineDepth = 6
 
 func (ex *Exec) call(fr *Frame, st *State, instr ssa.Instruction, c *ssa.CallCommon, p token.Pos) (Val, *State) {
+	v, st2 := ex.call0(fr, st, instr, c, p)
+	if st2 != nil && ex.fc != nil && len(ex.fc.AfterCall) > 0 && fr.isTop {
+		ex.afterCallClauses(fr, st2, c, v)
+	}
+	return v, st2
+}
+
+func (ex *Exec) call0(fr *Frame, st *State, instr ssa.Instruction, c *ssa.CallCommon, p token.Pos) (Val, *State) {
 	var args []Val
 	if c.IsInvoke() {
 		args = append(args, fr.val(c.Value))
 	}
 	for _, a := range c.Args {
 		args = append(args, fr.val(a))
+	}
+	ex.atCallClauses(fr, st, c, args, p)
+	if fr.isTop && ex.fc != nil && ex.fc.Opts["callees"] == "abstract" {
+		// every callee outside the package of the function under verification is
+		// abstracted: arbitrary results, no effect on tracked state (over-approximation
+		// for properties of this function's own control flow)
+		abstract := c.IsInvoke()
+		if f, ok := c.Value.(*ssa.Function); ok && (f.Pkg == nil || f.Pkg != ex.fn.Pkg) {
+			abstract = true
+		}
+		if abstract {
+			if _, isBuiltin := c.Value.(*ssa.Builtin); !isBuiltin {
+				return ex.unmodelledCall(fr, st, c, args, calleeName(c)+" (abstracted)", p), st
+			}
+		}
 	}
 	if c.IsInvoke() {
 		recv := args[0].(Sc).T
@@ -620,4 +643,111 @@ func containsQuant(e Expr) bool {
 		return containsQuant(x.X)
 	}
 	return false
+}
+
+// atCallClauses: call-site assertions of the function under verification.
+// `atcall <callee> <expr>`: at every call (in the function's own body, also in
+// its deferred calls) of a function whose name contains <callee>, <expr> must
+// hold; the locals of the function and arg0..argN (the call's arguments, the
+// receiver first for interface calls) are in scope.
+func (ex *Exec) atCallClauses(fr *Frame, st *State, c *ssa.CallCommon, args []Val, p token.Pos) {
+	if ex.fc == nil || len(ex.fc.AtCall) == 0 || !fr.isTop {
+		return
+	}
+	name := ""
+	var ptypes []types.Type
+	if c.IsInvoke() {
+		name = ifaceMethodName(c)
+		ptypes = append(ptypes, c.Value.Type())
+		sig := c.Method.Type().(*types.Signature)
+		for i := 0; i < sig.Params().Len(); i++ {
+			ptypes = append(ptypes, sig.Params().At(i).Type())
+		}
+	} else if f, ok := c.Value.(*ssa.Function); ok {
+		name = f.String()
+		for _, prm := range f.Params {
+			ptypes = append(ptypes, prm.Type())
+		}
+	} else {
+		return
+	}
+	for _, cl := range ex.fc.AtCall {
+		if !strings.Contains(name, cl.Target) {
+			continue
+		}
+		env := ex.specEnv(fr, st, ex.entry)
+		for i, a := range args {
+			if i < len(ptypes) {
+				env.vars[fmt.Sprintf("arg%d", i)] = SVal{V: a, T: ptypes[i]}
+			}
+		}
+		nUnsup := len(ex.cx.unsupported)
+		g, sk := env.evalGoalSkolem(cl.Expr)
+		label := cl.Label
+		if label == "" {
+			label = fmt.Sprintf("L%d", cl.Line)
+		}
+		if len(ex.cx.unsupported) != nUnsup {
+			// the clause could not be evaluated here (a local not in scope): the obligation fails
+			ex.cx.unsupported = ex.cx.unsupported[:nUnsup]
+			g = tFalse
+		}
+		ex.instantiateHyps(sk)
+		if g.S == "true" {
+			// keep the obligation visible (baseline, evidence) even when it folds to true
+			g = Term{"(= 0 0)", SBool}
+		}
+		ex.oblige("atcall", label, st, g, p, cl.Props)
+	}
+}
+
+func calleeName(c *ssa.CallCommon) string {
+	if c.IsInvoke() {
+		return ifaceMethodName(c)
+	}
+	if f, ok := c.Value.(*ssa.Function); ok {
+		return f.String()
+	}
+	return ""
+}
+
+// afterCallClauses updates the history variables (ghost locals) of the
+// function under verification after a call returned normally.
+func (ex *Exec) afterCallClauses(fr *Frame, st *State, c *ssa.CallCommon, ret Val) {
+	name := calleeName(c)
+	if name == "" {
+		return
+	}
+	for _, cl := range ex.fc.AfterCall {
+		if !strings.Contains(name, cl.Target) {
+			continue
+		}
+		env := ex.specEnv(fr, st, ex.entry)
+		res := c.Signature().Results()
+		switch {
+		case res.Len() == 1 && ret != nil:
+			env.vars["result0"] = SVal{V: ret, T: res.At(0).Type()}
+			env.vars["result"] = SVal{V: ret, T: res.At(0).Type()}
+		case res.Len() > 1:
+			if a, ok := ret.(Agg); ok {
+				for i := 0; i < res.Len() && i < len(a.F); i++ {
+					env.vars[fmt.Sprintf("result%d", i)] = SVal{V: a.F[i], T: res.At(i).Type()}
+				}
+			}
+		}
+		for i, a := range c.Args {
+			k := i
+			if c.IsInvoke() {
+				k = i + 1
+			}
+			env.vars[fmt.Sprintf("arg%d", k)] = SVal{V: fr.val(a), T: a.Type()}
+		}
+		v := env.eval(cl.Expr)
+		sc, ok := v.V.(Sc)
+		if !ok {
+			ex.cx.unsup("aftercall %s: value is not a scalar", cl.Label)
+			continue
+		}
+		st.vars["gl!"+cl.Label] = ex.cx.name("gl", sc.T)
+	}
 }
